@@ -258,12 +258,25 @@ func (p *programBackend) evalProgram(src string, arity int) (facts [][]val.V, ev
 	return facts, evalErr
 }
 
+// argSource prints an input value. Top-level times and durations are written through the exact
+// integer conversions, so that every int64 instant/duration can be an operand (the text forms
+// parsed by fn:time:parse_rfc3339 / fn:duration:parse are used for nested values only).
+func argSource(v val.V) string {
+	switch v.T {
+	case val.Time:
+		return "fn:time:from_unix_nanos(" + v.I + ")"
+	case val.Dur:
+		return "fn:duration:from_nanos(" + v.I + ")"
+	}
+	return v.Source()
+}
+
 func inputFact(args []val.V) (fact string, vars []string) {
 	var sb strings.Builder
 	sb.WriteString("a(0")
 	for i, a := range args {
 		sb.WriteString(", ")
-		sb.WriteString(a.Source())
+		sb.WriteString(argSource(a))
 		vars = append(vars, fmt.Sprintf("I%d", i))
 	}
 	sb.WriteString(").\n")
@@ -335,7 +348,7 @@ func (p *programBackend) reduce(sym string, rows [][]val.V, nargs int) (val.V, e
 		fmt.Fprintf(&sb, "a(%d", i)
 		for _, x := range r {
 			sb.WriteString(", ")
-			sb.WriteString(x.Source())
+			sb.WriteString(argSource(x))
 		}
 		sb.WriteString(").\n")
 	}
